@@ -9,7 +9,11 @@ correspond harness/cx_export.cpp (plain, z, asan, asanz):
            DIFF  each of the 14 extern "C" functions against the native C++ call with the same arguments over the
                  option grid; raw result arrays decoded with the extracted dec_paths/dec_tree and native results
                  re-encoded with the extracted enc_paths/enc_tree, compared exactly;
-           return codes of invalid arguments against the evaluated translated prologue.
+           return codes of invalid arguments against the evaluated translated prologue;
+           KE    the same calls with input arrays built by the harness's own encoder the way a C client may build them
+                 (every path an entry, an empty one as `0, 0`, C counting every entry -- the library's creators never
+                 write such an entry): decoders against the extracted dec_paths (theorem C17_dec_hand_built: exactly
+                 those paths, empty ones included), each export against the native call on those paths.
 """
 import json, os, struct, sys, time, concurrent.futures as cf
 import vf
@@ -20,10 +24,12 @@ PID = 'C17'
 META = dict(
     text='Coq theorems for all path sets and polytrees: decode(encode(ps)) = non-empty paths of ps, first element = '
          'number of elements written, all writes inside the allocation and all reads inside the stated length '
-         '(int64 and double arrays, with and without z); forwarding and validation-code theorems over a table '
+         '(int64 and double arrays, with and without z); decode of an array a caller built from the documented layout with empty-path '
+         'entries (`0, 0`) returns exactly those paths, empty ones included (C17_dec_hand_built); forwarding and validation-code theorems over a table '
          'translated from the current clipper.export.h on every run.',
     note='The array model is a hand model tied to the code by exact element-by-element correspondence on generated '
-         'inputs (plain/USINGZ, ASan+UBSan); the forwarding table is regenerated from the source by clang JSON AST '
+         'inputs (plain/USINGZ, ASan+UBSan), input arrays built by the harness\'s own encoder both the way the library writes them and with '
+         'empty-path entries kept (which the library\'s creators never write); the forwarding table is regenerated from the source by clang JSON AST '
          '(trusted translator, cross-checked by the differential run of all 14 exports against native calls over the '
          'option grid). Scaled double<->int64 conversions are compared with the library\'s own ScalePaths, not modelled.',
     technique='Coq 8.16 proofs (induction over lists/trees, vm_compute over the translated table) + extracted OCaml '
@@ -34,8 +40,13 @@ FN_OF_CMD = {'BOOL64': 'BooleanOp64', 'BOOLD': 'BooleanOpD', 'TREE64': 'BooleanO
              'INFL64': 'InflatePaths64', 'INFLD': 'InflatePathsD', 'INFP64': 'InflatePath64', 'INFPD': 'InflatePathD',
              'RC64': 'RectClip64', 'RCD': 'RectClipD', 'RCL64': 'RectClipLines64', 'RCLD': 'RectClipLinesD',
              'MS64': 'MinkowskiSum64', 'MD64': 'MinkowskiDiff64'}
-DKIND = {'BOOLD', 'TREED', 'INFLD', 'INFPD', 'RCD', 'RCLD', 'MKD', 'MKS', 'MTD', 'MPD'}
+DKIND = {'BOOLD', 'TREED', 'INFLD', 'INFPD', 'RCD', 'RCLD', 'MKD', 'MKS', 'MTD', 'MPD', 'HKD', 'HKS'}
 TAGS = {'ARR', 'DEC', 'CMP', 'NAT', 'NATB', 'RC', 'UNTOUCHED', 'A1', 'A2', 'N1', 'N2', 'NT', 'PUB', 'NULLRET', 'EXC', 'ERR'}
+
+
+def cmd_of(line):
+    t = line.split()
+    return t[1] if t and t[0] == 'KE' and len(t) > 1 else (t[0] if t else '')
 
 
 def bits(x):
@@ -192,7 +203,15 @@ def gen_cases(ctx, D):
     cases = []
 
     def add(cmd, line, **info):
-        cases.append((cmd, cmd + ' ' + line, info))
+        cases.append((cmd, ('KE ' if info.get('ke') else '') + cmd + ' ' + line, info))
+
+    def with_empties(ps):
+        """the same set with empty paths inserted -- at least one of them in front of another path when there is one"""
+        ps = [list(p) for p in ps]
+        ps.insert(rng.below(max(1, len(ps))), [])
+        for _ in range(rng.below(3)):
+            ps.insert(rng.below(len(ps) + 1), [])
+        return ps
 
     # ---- marshalling kernels
     nm = 600 if quick else 6000
@@ -232,6 +251,11 @@ def gen_cases(ctx, D):
         t = tree(0)
         add('MT64', fmt_tree(t, False))
         add('MTD', fmt_tree(t, True))
+        # caller-built arrays (empty paths kept as `0, 0` entries, anywhere in the array) straight into the decoders
+        hk = with_empties(ps) if i % 3 else ps
+        add('HK64', fmt_ps64(hk), paths=len(hk), empties=sum(1 for q in hk if not q))
+        add('HKD', fmt_psD(hk if k else with_empties([g.poly(rng.range(1, 3))]), rng.choice([1, 3, 7, 1000])), paths=len(hk))
+        add('HKS', '%d %s' % (bits(rng.choice([1.0, 100.0, 0.01, 1e8, 0.5])), fmt_psD(hk if k else [[]], rng.choice([1, 3, 1000]))))
 
     # ---- boolean operations: full ct x fr x pc x rs grid on several inputs
     nin = 6 if quick else 24
@@ -330,14 +354,44 @@ def gen_cases(ctx, D):
                     line, info = mk_infl(cmd, a)
                     add(cmd, line, pair=pid, option=opt, **info)
 
+    # ---- caller-built input arrays with empty-path entries (KE): every export that takes a CPaths argument
+    nke = 5 if quick else 20
+    for rep in range(nke):
+        subj = with_empties(g.pathset(rng.choice([2, 4, 5, 6, 7])) + g.pathset(rng.choice([2, 4])))
+        clip = with_empties(g.pathset(rng.choice([2, 4, 5, 6, 7])))
+        subo = with_empties(g.openset() + [g.poly(rng.range(2, 5))])
+        for ct in range(5):
+            for fr in range(4):
+                prec = rng.choice(PRECS)
+                a = dict(cliptype=ct, fillrule=fr, preserve_collinear=rng.below(2), reverse_solution=rng.below(2), nulls=rng.choice([0, 0, 2, 4]),
+                         subj=subj, subo=subo, clip=clip, precision=prec, dv=div_for(prec, rng))
+                for cmd in ('BOOL64', 'TREE64', 'BOOLD', 'TREED'):
+                    line, info = mk_bool(cmd, a)
+                    add(cmd, line, ke=True, **info)
+        ps = with_empties([g.poly(collinear=(rep % 2 == 0)) for _ in range(rng.range(1, 3))])
+        for jt in range(4):
+            for et in range(5):
+                k += 1
+                prec = PRECS[k % len(PRECS)]
+                a = dict(delta=DELTAS[k % len(DELTAS)], jointype=jt, endtype=et, miter_limit=MITERS[k % len(MITERS)], arc_tolerance=ARCS[k % len(ARCS)],
+                         reverse_solution=k % 2, paths=ps, path=[], precision=prec, dv=div_for(prec, rng))
+                for cmd in ('INFL64', 'INFLD'):
+                    line, info = mk_infl(cmd, a)
+                    add(cmd, line, ke=True, **info)
+
     # ---- rectangle clipping (rectangles placed over the paths, plus empty / inverted ones)
     nrc = 250 if quick else 2000
     for i in range(nrc):
         ps = g.pathset(rng.choice([0, 1, 3, 4, 6, 7, 4, 6]))
+        ke = (i % 3 == 0)
+        if ke:
+            ps = with_empties(ps)
         l, t = rng.range(-60, 20), rng.range(-60, 20)
         w, h = rng.choice([0, -5, 1, 20, 50, 90, 140]), rng.choice([0, -3, 1, 25, 60, 130])
         nulls = 1 if (not ps and rng.chance(1, 2)) else 0
         info = dict(rect=[l, t, l + w, t + h], nulls=nulls)
+        if ke:
+            info['ke'] = True
         add('RC64', '%d %d %d %d %d %s' % (l, t, l + w, t + h, nulls, fmt_ps64(ps)), **info)
         add('RCL64', '%d %d %d %d %d %s' % (l, t, l + w, t + h, nulls, fmt_ps64(ps)), **info)
         prec = PRECS[i % len(PRECS)] if i % 9 else rng.choice(BAD_PRECS)
@@ -458,13 +512,13 @@ def run_variant(ctx, exe, oracle, cases, D, variant, sample_every=1):
                 if p.returncode != 0 or not p.stdout.strip():
                     rep = [l.strip() for l in p.stderr.splitlines()
                            if 'ERROR: AddressSanitizer' in l or 'runtime error' in l or 'SUMMARY' in l or l.strip().startswith(('#0 ', '#1 ', '#2 ', '#3 '))]
-                    failures.append(dict(cmd=ln.split()[0], line=ln, info={}, variant=variant,
+                    failures.append(dict(cmd=cmd_of(ln), line=ln, info={}, variant=variant,
                                          why='harness %s crashed / sanitizer report (rc=%s): %s' % (variant, p.returncode, ' | '.join(rep)[:700] or p.stderr[-400:])))
                     crashing.add(ln)
                     found = True
                     break
             if not found:
-                failures.append(dict(cmd=shard[0].split()[0], line=shard[start] if start < len(shard) else shard[0], info={}, variant=variant,
+                failures.append(dict(cmd=cmd_of(shard[0]), line=shard[start] if start < len(shard) else shard[0], info={}, variant=variant,
                                      why='harness %s shard failed rc=%s (not reproducible on single lines): %s' % (variant, rc, err[-400:])))
                 crashing.update(shard)
         cases = [c for c in cases if c[1] not in crashing]
@@ -482,6 +536,8 @@ def run_variant(ctx, exe, oracle, cases, D, variant, sample_every=1):
             pairs.setdefault((info['pair'], FN_OF_CMD[cmd], info['option']), []).append(' '.join(f.get('N1', []) + f.get('NT', []) + f.get('N2', [])))
         e = 'F' if cmd in DKIND else 'I'
         toks = line.split()
+        if toks and toks[0] == 'KE':
+            toks = toks[1:]
         # --- kernel level: raw arrays against the model
         if cmd in ('MK64', 'MKD') and 'ARR' in f:
             inp = ' '.join(toks[1:])
@@ -490,6 +546,17 @@ def run_variant(ctx, exe, oracle, cases, D, variant, sample_every=1):
             ck.q(idx, 'library decoder result differs from the model decoder', 'DEC %s %d %s' % (e, D, arr), ' '.join(f['DEC']))
             if ' '.join(f['DEC']) != nonempty_paths_text(toks[1:], D):
                 probs.append('ConvertCPathsToPathsT(Create...(ps)) is not the non-empty paths of ps')
+        elif cmd in ('HK64', 'HKD') and 'ARR' in f:
+            inp = ' '.join(toks[1:])
+            arr = ' '.join(f['ARR'])
+            ck.q(idx, 'caller-built array (harness encoder, empty paths kept) differs from the model layout enc_paths_raw', 'ENCR %s %d %s' % (e, D, inp), arr)
+            ck.q(idx, 'library decoder on a caller-built array (empty-path entries) differs from the model decoder [C17_dec_hand_built]',
+                 'DEC %s %d %s' % (e, D, arr), ' '.join(f['DEC']))
+            if ' '.join(f['DEC']) != inp:
+                probs.append('ConvertCPathsToPathsT of a caller-built array (empty paths as `0 0` entries) does not return exactly the paths of the array')
+        elif cmd == 'HKS' and 'DEC' in f:
+            if f['DEC'] != f['NAT']:
+                probs.append('ConvertCPathsDToPaths64 of a caller-built array (empty paths as `0 0` entries) differs from ScalePaths of its paths')
         elif cmd == 'MKS' and 'ARR' in f:
             ck.q(idx, 'CreateCPathsDFromPaths64 array differs from model layout of ScalePaths result', 'ENCN F %d %s' % (D, ' '.join(f['NAT'])), ' '.join(f['ARR']))
             if f['DEC'] != f['NATB']:
@@ -519,7 +586,8 @@ def run_variant(ctx, exe, oracle, cases, D, variant, sample_every=1):
                 if rc != 0 and f.get('UNTOUCHED') != ['1']:
                     probs.append('outputs written although an error code was returned')
         for p in probs:
-            failures.append(dict(cmd=cmd, line=line, info=info, variant=variant, why=p))
+            failures.append(dict(cmd=cmd, line=line, info=info, variant=variant,
+                                 why=p + (' [input arrays caller-built with empty-path entries]' if info.get('ke') else '')))
     # oracle
     oq, ofails = vf.par_lines(oracle, ck.queries, timeout=1500)
     if ofails or len(oq) != len(ck.queries):
@@ -617,15 +685,19 @@ def run(ctx):
         fl, n = run_variant(ctx, exes[v], oracle, cases, D, v)
         all_fail += fl
         total += n
-        for cmd, _, _ in cases:
+        for cmd, _, inf in cases:
             ctx.hist('cases_by_command', cmd)
+            if inf.get('ke'):
+                ctx.hist('cases_with_caller_built_empty_entries', cmd)
     ctx.count('evaluations', total)
     distinct = len({c[1] for D in cases_by_D for c in cases_by_D[D]})
     ctx.cov['distinct_nontrivial'] = distinct
     ctx.cov['rule'] = ('seeded generator: marshalling kernels on random path sets/trees (empty sets, empty paths, int64 extremes, '
                        'arbitrary double bit patterns, z values), each exported function on the option grid (ct x fr x '
                        'preserve_collinear x reverse_solution; jt x et x reverse_solution with deltas, miter limits, arc tolerances and '
-                       'precisions -8..8 cycled; rectangles incl. empty; invalid ct/fr/precision); distinct = distinct input lines over '
+                       'precisions -8..8 cycled; rectangles incl. empty; invalid ct/fr/precision); HK*/KE: input arrays built by the harness encoder with '
+                       'every path an entry (empty paths as `0 0`, in front of / between / behind other paths) fed to the decoders and to '
+                       'every export taking a CPaths argument; distinct = distinct input lines over '
                        'D=2 and D=3; every line is non-trivial in that it calls library code and compares an array or a code')
     for D in (2, 3):
         for c in cases_by_D[D][:1] + cases_by_D[D][len(cases_by_D[D]) // 2:len(cases_by_D[D]) // 2 + 1]:
@@ -709,7 +781,7 @@ def replay(ctx, path):
         export_table.regenerate(vf.INC, out_v=os.path.join(vf.COQ, 'gen', 'Gen_export.v'))
         vf.coq_make(['gen/Gen_export.vo'])
     oracle = vf.oracle_build('export')
-    cmd = rp['line'].split()[0]
+    cmd = cmd_of(rp['line'])
     fl, _ = run_variant(ctx, exe, oracle, [(cmd, rp['line'], rp.get('args', {}))], D, v)
     ctx.count('evaluations', 1)
     print('input: %s' % rp['line'][:600])
